@@ -284,6 +284,27 @@ def run(ctx):
             ctx.fail_input("tensor", dict(make_dipolar="z-axis"), "make_dipolar tensor is not traceless", classify)
     except Exception as e:
         ctx.notes.append("make_dipolar probe skipped: %r" % e)
+    # ---- sparse, non-contiguous sub-selections on larger systems (index spread far beyond the selection sizes), every run
+    for t in range(10 if quick else 150):
+        c = gen_case(rng, 4 * t)          # t % 4 == 0: 8-12 atoms
+        n = len(c["syms"])
+        if n < 6 or len(set(map(tuple, c["pos"]))) < n:
+            continue
+        crafted = [([0, 1], [2, 5, 7]), ([0, 2], [1, 5]), ([1, 2, 3], [0, 4, 7]), ([0, 1], [3, 5]), ([2, 3], [0, 1, 4, 6]),
+                   (sorted(rng.sample(range(n), rng.randint(1, 3))), sorted(rng.sample(range(n), rng.randint(2, 4))))]
+        for si, sj in crafted:
+            if max(si + sj) >= n:
+                continue
+            self_c, iso = rng.random() < 0.3, False
+            ctx.evaluations += 1
+            try:
+                res = DipolarCoupling.get(mk(c), sel_i=si, sel_j=sj, self_coupling=self_c, isonuclear=iso)
+                p = coupling_oracle(c, si, sj, self_c, iso, res)
+            except Exception as e:
+                p = "raised %s: %s" % (type(e).__name__, str(e)[:160])
+            ctx.seen(("coupling-sparse", len(si), len(sj), p is None))
+            if p:
+                ctx.fail_input("coupling", dict(c, sel_i=si, sel_j=sj, self=self_c, iso=iso, block=1000), p, classify)
     # ---- get_pair_dipolar_couplings (the 2D-plot helper): the same constants, for pairs in any order, zero on the diagonal, in every unit
     from soprano.calculate.nmr.utils import get_pair_dipolar_couplings
     from soprano.properties.nmr import DipolarCoupling as _DC
